@@ -525,6 +525,18 @@ def r10_5(rep: Report) -> None:
                  f'`{var}` is assigned on some paths of one list item only and read at line {use.lineno}: '
                  'an entry without its own value inherits the previous entry\'s (e.g. '
                  '`drm=playready-cenc,clearkey` gives clearkey the location set {cenc})', use)
+    # .. and every item is decided from the item: nothing inside the loop reads the whole option text
+    from ..idioms import whole_reads_in_item_loops
+    n_split, whole = whole_reads_in_item_loops(fn)
+    if n_split == 0:
+        raise AnalysisError('_drm_selection_from_string: the loop over the pieces of the option text was not found')
+    if not whole:
+        rep.ok('R10.5', construct, 'items decided from the item', f'{n_split} loop(s) over the pieces of the option text')
+    for loop, base, use in whole:
+        rep.fail('R10.5', construct, f'items decided from the item:{base}',
+                 f'inside the loop over `{norm(loop.iter)}` the whole text `{base}` is read (`{short(getattr(use, "_parent", use), 60)}`): '
+                 'what one listed system gets depends on how the others are written (e.g. `drm=playready-pro,clearkey` '
+                 'gives clearkey no location at all, or all of them, because another item has a `-`)', use)
 
 
 # where the MovieExtendsHeaderBox lives (ISO/IEC 14496-12 8.8.2: mehd is a child of mvex); a deletion by
